@@ -195,6 +195,9 @@ fn apply(op: Op, l: V, r: V) -> Verdict {
             match (&l, &r) {
                 (_, V::Num(b)) if b.is_zero() => return Verdict::MustError("divide-by-zero"),
                 (_, V::Com(_)) if is_zero(&r) => return Verdict::Unspecified("divide-by-zero-commodity-amount"),
+                // whatever `number / amount` means, it takes one amount: a divisor holding two or
+                // more non-zero commodities is "a multi-commodity sum where a single amount is required"
+                (V::Num(_), V::Com(m)) if m.values().filter(|q| !q.is_zero()).count() >= 2 => return Verdict::MustError("number/multi-commodity-sum"),
                 (V::Num(_), V::Com(_)) => return Verdict::Unspecified("number/commodity"),
                 (V::Com(_), V::Com(_)) => return Verdict::Unspecified("commodity/commodity"),
                 _ => {}
